@@ -15,6 +15,7 @@ var table = map[string]func(*checks.Run){
 	"C18": checks.C18,
 	"C03": checks.C03,
 	"C06": checks.C06,
+	"C08": checks.C08,
 	"C07": checks.C07,
 	"C10": checks.C10,
 	"C11": checks.C11,
